@@ -25,6 +25,7 @@ type ent struct {
 	ID    uint64
 	Epoch uint64
 	Pad   []byte
+	Fail  bool // not serialised: encoding fails after the first fields were emitted
 }
 
 func (e *ent) WALEpoch() uint64 { return e.Epoch }
@@ -36,6 +37,9 @@ func (e *ent) MarshalCBOR(w io.Writer) error {
 	}
 	if err := cw.WriteMajorTypeHeader(cbg.MajUnsignedInt, e.ID); err != nil {
 		return err
+	}
+	if e.Fail {
+		return fmt.Errorf("entry cannot be encoded (field too long)")
 	}
 	if err := cw.WriteMajorTypeHeader(cbg.MajUnsignedInt, e.Epoch); err != nil {
 		return err
@@ -148,6 +152,28 @@ func (s *sys) syncNames() {
 func (s *sys) apply(op string) {
 	r := s.ref
 	switch {
+	case op == "aF":
+		// an append whose entry fails to encode part-way: it is not acknowledged and must leave no trace that
+		// affects later entries
+		e := ent{ID: 1 << 40, Epoch: 2, Fail: true}
+		if r.active != nil && r.active.size > 1<<20 {
+			r.active.closed = true
+			r.active = nil
+		}
+		if r.active == nil {
+			r.active = &refFile{}
+			r.files = append(r.files, r.active)
+		}
+		if err := s.wal.Append(e); err == nil {
+			s.bad("failed-append-acknowledged", "Append of an entry that cannot be encoded returned nil")
+			return
+		}
+		s.syncNames()
+		if r.active.name == "" {
+			// no file was created for the failed append
+			r.files = r.files[:len(r.files)-1]
+			r.active = nil
+		}
 	case strings.HasPrefix(op, "aS"), strings.HasPrefix(op, "aB"):
 		var epoch uint64
 		fmt.Sscanf(op[2:], "%d", &epoch)
@@ -401,7 +427,7 @@ type counters struct {
 	crashImages atomic.Int64
 }
 
-var alphabet = []string{"aS1", "aS2", "aS3", "aB2", "rot", "close", "purge2", "purge3", "reopen"}
+var alphabet = []string{"aS1", "aS2", "aS3", "aB2", "aF", "rot", "close", "purge2", "purge3", "reopen"}
 
 func main() {
 	prop := flag.String("prop", "C11", "")
@@ -419,7 +445,7 @@ func main() {
 	}
 	defer os.RemoveAll(root)
 	if !vcommon.Thorough() {
-		alphabet = []string{"aS1", "aS2", "aB2", "rot", "close", "purge2", "purge3", "reopen"}
+		alphabet = []string{"aS1", "aS2", "aB2", "aF", "rot", "close", "purge2", "purge3", "reopen"}
 	}
 	// enumerate all sequences up to depth
 	var hists [][]string
@@ -463,7 +489,7 @@ func main() {
 				var before int64
 				var lastName string
 				for k, op := range h {
-					if k == len(h)-1 && op[0] == 'a' && s.ref.active != nil && !(s.ref.active.size > 1<<20) {
+					if k == len(h)-1 && op[0] == 'a' && op != "aF" && s.ref.active != nil && !(s.ref.active.size > 1<<20) {
 						before, lastName = s.ref.active.size, s.ref.active.name
 					}
 					s.apply(op)
@@ -478,7 +504,7 @@ func main() {
 					what = fmt.Sprintf("history %v: %s", h, what)
 				}
 				last := h[len(h)-1]
-				if what == "" && last[0] == 'a' {
+				if what == "" && last[0] == 'a' && last != "aF" {
 					// torn images of the final append
 					af := s.ref.active
 					if lastName == "" {
@@ -529,7 +555,7 @@ func main() {
 	chk.Set("crash_images", st.crashImages.Load())
 	chk.Set("depth", depth)
 	chk.Set("exhaustive", chk.Violations() == 0)
-	chk.Set("rule", "all operation sequences over {append small (epoch 1,2; thorough also 3), append 600 KiB (epoch 2), rotate, close, purge(2), purge(3), reopen} up to the depth, plus three long rotating histories, on the real WriteAheadLog in /dev/shm; All() is compared with the reference list of acknowledged, unpurged entries after every step (set equality, per-file order, purge conservative and complete by directory listing); for every history ending in an append, every byte offset of that append (big entries: quick first/last 32 offsets and 8 evenly spaced; thorough first/last 1024 and every 40009th) is materialised as a torn file, recovered, read, continued (append, reopen, append, purge, reopen) and compared again")
+	chk.Set("rule", "all operation sequences over {append small (epoch 1,2; thorough also 3), append 600 KiB (epoch 2), append of an entry that fails to encode part-way, rotate, close, purge(2), purge(3), reopen} up to the depth, plus three long rotating histories, on the real WriteAheadLog in /dev/shm; All() is compared with the reference list of acknowledged, unpurged entries after every step (set equality, per-file order, purge conservative and complete by directory listing); for every history ending in an append, every byte offset of that append (big entries: quick first/last 32 offsets and 8 evenly spaced; thorough first/last 1024 and every 40009th) is materialised as a torn file, recovered, read, continued (append, reopen, append, purge, reopen) and compared again")
 	_ = os.RemoveAll(root)
 	chk.Assume("a crash tears only the final write; directory entries of created files survive; file names (wall clock) are opaque and cross-file order is not asserted")
 	chk.Finish()
